@@ -36,6 +36,9 @@ namespace sim
       Features f;
       std::uint64_t fingerprint = 0;  // history hash(es) of the job
       bool discarded = false;         // fuel exhausted: not judged
+      bool spinning = false;          // fuel exhausted while one rule invocation kept attempting sub-rules without moving the cursor
+      std::string spin_detail;
+      std::uint32_t spin_rule = 0;
       std::uint64_t events = 0, reader_calls = 0, bytes_delivered = 0;
    };
 
